@@ -598,6 +598,10 @@ class Gen:
     def space(self, allow_vector=True, allow_piola=True, for_arg=True):
         c, r = self.c, self.rng
         kinds = ["P"] * 3 + ["DG"]
+        if c.cell in ("prism", "pyramid"):
+            kinds = ["P", "P", "DG"]
+            allow_vector = allow_vector and c.cell == "prism"
+            allow_piola = False
         if allow_vector:
             kinds += ["vecP", "vecP"]
             if c.cell not in ("prism", "pyramid"):
@@ -627,11 +631,25 @@ class Gen:
         for f, k in self.coeffs:
             if k == kind and self.rng.random() < 0.5:
                 return f
+        c = self.c
         if kind == "scalar":
-            V = self.c.V(self.pick(["Lagrange", "Lagrange", "DG"]) if self.itype != "vertex" else "Lagrange",
-                         int(self.rng.integers(1, 3)))
+            fam = self.pick(["Lagrange", "Lagrange", "DG", "DG0", "Bubble"]) if self.itype != "vertex" else "Lagrange"
+            if fam == "DG0":
+                V = c.V("DG", 0)
+            elif fam == "Bubble" and c.cell in ("triangle", "tetrahedron", "interval") and self.itype == "cell":
+                V = c.space(basix.ufl.enriched_element([c.el("Lagrange", 1), c.el("Bubble", c.tdim + 1)]))
+            else:
+                V = c.V("Lagrange" if fam in ("DG0", "Bubble") else fam, int(self.rng.integers(1, 3)))
+            self.tags.add("coef:" + fam)
         else:
-            V = self.c.V("Lagrange", 1, shape=(self.c.gdim,))
+            fam = self.pick(["vecP", "vecP", "piola", "vecDG"])
+            if fam == "piola" and c.cell in ("triangle", "tetrahedron") and c.gdim == c.tdim:
+                V = c.V(self.pick(["N1curl", "RT", "BDM"]), 1)
+            elif fam == "vecDG" and self.itype != "vertex":
+                V = c.V("DG", 1, shape=(c.gdim,))
+            else:
+                V = c.V("Lagrange", 1, shape=(c.gdim,))
+            self.tags.add("coef:" + fam)
         f = Coefficient(V)
         self.coeffs.append((f, kind))
         return f
@@ -783,8 +801,12 @@ class Gen:
                 args.append(self.arg_parts(V1, k1, 1))
         nterms = nterms or int(r.integers(1, 4))
         form = None
-        for _ in range(nterms):
+        for _ in range(nterms + 3):
+            if form is not None and _ >= nterms:
+                break
             e = self.term(args)
+            if isinstance(e, ufl.classes.Zero) or not ufl.domain.extract_domains(e):
+                continue  # e.g. the gradient of a DG0 function is simplified to zero by UFL at construction
             kw = {}
             if with_ids and r.random() < 0.5:
                 kw["subdomain_id"] = int(r.integers(0, 4))
